@@ -397,3 +397,309 @@ Section Sim.
         * reflexivity.
   Qed.
 End Sim.
+
+(* ---- sums over a duplicate-free list of affiliate ids ---- *)
+Lemma sum_over_update ids k v f :
+  NoDup ids -> In k ids ->
+  sum_over ids (fun id => if N.eqb id k then v else f id) = sum_over ids f - f k + v.
+Proof.
+  intros Hnd Hin.
+  rewrite (sum_over_ext _ _ (fun id => f id + (if N.eqb k id then v - f k else 0))).
+  2: { intros id. rewrite (N.eqb_sym id k). destruct (N.eqb_spec k id) as [->|]; ring. }
+  rewrite sum_over_plus, (sum_over_indicator _ _ _ Hnd Hin). ring.
+Qed.
+
+Lemma sum_over_member ids k f :
+  (forall id, 0 <= f id) -> In k ids -> f k <= sum_over ids f.
+Proof.
+  intros Hf. induction ids as [|i ids IH]; intros Hin; [contradiction|]. cbn [sum_over].
+  assert (Hrest : 0 <= sum_over ids f).
+  { clear IH Hin. induction ids as [|j ids IHj]; cbn [sum_over]; [apply Qcle_refl|]. pose proof (Hf j). qc_lra. }
+  destruct Hin as [->|Hin].
+  - qc_lra.
+  - specialize (IH Hin). pose proof (Hf i). qc_lra.
+Qed.
+
+Lemma shares_of_notin k (m : holdings) : ~ In k (map fst m) -> shares_of m k = 0.
+Proof.
+  unfold shares_of. induction m as [|[k' h] m IH]; intros Hn; cbn [alookup]; [reflexivity|].
+  destruct (N.eqb_spec k k') as [->|]; [exfalso; apply Hn; left; reflexivity|].
+  apply IH. intros Hc. apply Hn. right; exact Hc.
+Qed.
+
+Lemma total_as_sum (m : holdings) ids :
+  NoDup (map fst m) -> NoDup ids -> incl (map fst m) ids ->
+  total_shares m = sum_over ids (shares_of m).
+Proof.
+  intros Hm Hnd. induction m as [|[k h] m IH]; intros Hin.
+  - cbn [total_shares]. clear. induction ids as [|i ids IHi]; cbn [sum_over]; [reflexivity|].
+    rewrite <- IHi. unfold shares_of. cbn [alookup]. ring.
+  - cbn [map fst] in Hm, Hin. apply NoDup_cons_iff in Hm as [Hk Hm].
+    cbn [total_shares fst]. rewrite (IH Hm) by (intros x Hx; apply Hin; right; exact Hx).
+    rewrite (sum_over_ext _ (shares_of ((k, h) :: m)) (fun id => if N.eqb id k then fst h else shares_of m id)).
+    2: { intros id. unfold shares_of. cbn [alookup]. destruct (N.eqb id k); reflexivity. }
+    rewrite sum_over_update; [|exact Hnd | apply Hin; left; reflexivity].
+    rewrite (shares_of_notin _ _ Hk). ring.
+Qed.
+
+Definition mkaf (id : N) : aff := {| af_id := id; af_reg := false; af_dflt := false |}.
+
+(* ---- the look-ahead, rejecting case: a later sale inside the window sells
+   more than its affiliate's share ledger holds (both look-ahead rejections) ---- *)
+Section Ahead2.
+  Variable last : Z.
+  Variable dflt start : aff -> Qc.
+  Hypothesis dflt_id : forall af af', af_id af = af_id af' -> dflt af = dflt af'.
+  Hypothesis start_id : forall af af', af_id af = af_id af' -> start af = start af'.
+  Variable ids : list N.
+  Hypothesis ids_nodup : NoDup ids.
+
+  Lemma act_id s af af' : af_id af = af_id af' -> act s dflt af = act s dflt af'.
+  Proof. intros e. unfold act. rewrite e. destruct (alookup _ _); [reflexivity | apply dflt_id; exact e]. Qed.
+
+  Lemma fwd_scan_rej_witness w : forall adj s seen r,
+    adj_inv adj seen -> Forall split_pos seen -> Forall split_pos w ->
+    Forall (fun x => In (af_id (t_af x)) ids) w ->
+    (forall af, act s dflt af = start af + net_after (af_id af) [] seen) ->
+    sc_eop s = sum_over ids (fun id => act s dflt (mkaf id)) ->
+    (forall af, 0 <= act s dflt af) ->
+    fwd_scan exact last dflt w adj s = Rej r ->
+    exists w1 x w2 n p c rr cr sp, w = w1 ++ x :: w2 /\ t_act x = Sell n p c rr cr sp /\
+      (t_sd x <= last)%Z /\
+      shares_after (af_id (t_af x)) (start (t_af x)) (seen ++ w1) < n.
+  Proof.
+    induction w as [|x w IH]; intros adj s seen r Hadj Hps Hpw Hids Hact Hsum Hnn H; cbn [fwd_scan] in H; [discriminate|].
+    apply Forall_cons_iff in Hpw as [Hpx Hpw]. apply Forall_cons_iff in Hids as [Hix Hids].
+    assert (Hps' : Forall split_pos (seen ++ [x])) by (apply Forall_app; split; [exact Hps | constructor; [exact Hpx | constructor]]).
+    destruct (Z.ltb_spec last (t_sd x)) as [|Hwin]; [discriminate|].
+    assert (Hlift : (exists w1 x0 w2 n p c rr cr sp, w = w1 ++ x0 :: w2 /\ t_act x0 = Sell n p c rr cr sp /\
+                       (t_sd x0 <= last)%Z /\
+                       shares_after (af_id (t_af x0)) (start (t_af x0)) ((seen ++ [x]) ++ w1) < n) ->
+                    exists w1 x0 w2 n p c rr cr sp, x :: w = w1 ++ x0 :: w2 /\ t_act x0 = Sell n p c rr cr sp /\
+                       (t_sd x0 <= last)%Z /\
+                       shares_after (af_id (t_af x0)) (start (t_af x0)) (seen ++ w1) < n).
+    { intros (w1 & x0 & w2 & n & p & c & rr & cr & sp & Ew & Ea & Hsd & Hlt).
+      exists (x :: w1), x0, w2, n, p, c, rr, cr, sp. split; [rewrite Ew; reflexivity|]. split; [exact Ea|].
+      split; [exact Hsd|]. rewrite <- app_assoc in Hlt. exact Hlt. }
+    assert (Hnet : forall af, net_after (af_id af) [] (seen ++ [x])
+                              = net_after (af_id af) [] seen
+                                + (if N.eqb (af_id (t_af x)) (af_id af) then net_shares x * fadj (af_id af) seen else 0)).
+    { intros af. rewrite net_after_snoc. reflexivity. }
+    destruct (t_act x) as [sh aps com rate crate | sh aps com rate crate sp | aps rate | sh aps | post pre io] eqn:Ea.
+    - (* Buy *)
+      brej H as b E1. apply gez_mul_exact in E1 as [-> Hb].
+      brej H as eop E2. apply gez_add_exact in E2 as [-> _].
+      brej H as na E3. apply gez_add_exact in E3 as [-> _]. brej H as acq E4.
+      apply Hlift. eapply IH; [apply adj_inv_keep; [exact Hadj | rewrite Ea; reflexivity] | exact Hps' | exact Hpw | exact Hids | | | | exact H].
+      + intros af. rewrite act_update, Hnet. unfold net_shares, buy_shares, sell_shares. rewrite Ea.
+        rewrite (N.eqb_sym (af_id (t_af x)) (af_id af)).
+        destruct (N.eqb_spec (af_id af) (af_id (t_af x))) as [e|n0].
+        * fold (act s dflt (t_af x)). rewrite (Hact (t_af x)), (Hadj (t_af x)), e, (start_id _ _ e). ring.
+        * rewrite (Hact af). ring.
+      + cbn [sc_eop].
+        rewrite (sum_over_ext _ _ (fun id => if N.eqb id (af_id (t_af x))
+                   then act s dflt (t_af x) + sh * adj_of (t_af x) adj else act s dflt (mkaf id))).
+        2: { intros id. rewrite act_update. reflexivity. }
+        rewrite sum_over_update by assumption. rewrite Hsum.
+        rewrite (act_id s (mkaf (af_id (t_af x))) (t_af x)) by reflexivity. ring.
+      + intros af. rewrite act_update. destruct (N.eqb _ _); [|apply Hnn].
+        fold (act s dflt (t_af x)). pose proof (Hnn (t_af x)). qc_lra.
+    - (* Sell *)
+      brej H as b E1. apply gez_mul_exact in E1 as [-> Hb].
+      cbn [a_sub exact bind] in H. fold (act s dflt (t_af x)) in H.
+      assert (Hmem : act s dflt (t_af x) <= sc_eop s).
+      { rewrite Hsum. rewrite (act_id s (t_af x) (mkaf (af_id (t_af x)))) by reflexivity.
+        apply (sum_over_member ids (af_id (t_af x)) (fun id => act s dflt (mkaf id))); [|exact Hix].
+        intros id. apply Hnn. }
+      destruct (Qcltb_spec (act s dflt (t_af x) - sh * adj_of (t_af x) adj) 0) as [Hneg|Hok].
+      + (* this row oversells (whichever of the two messages is raised) *)
+        exists [], x, w, sh, aps, com, rate, crate, sp. split; [reflexivity|]. split; [exact Ea|].
+        split; [exact Hwin|].
+        rewrite app_nil_r.
+        pose proof (shares_after_adj (af_id (t_af x)) (start (t_af x)) [] seen Hps) as Hsa.
+        cbn [app fadj] in Hsa.
+        rewrite (Hact (t_af x)), (Hadj (t_af x)) in Hneg.
+        assert (E : start (t_af x) + net_after (af_id (t_af x)) [] seen - sh * fadj (af_id (t_af x)) seen
+                    = (shares_after (af_id (t_af x)) (start (t_af x)) seen - sh) * fadj (af_id (t_af x)) seen).
+        { assert (Hsa' : shares_after (af_id (t_af x)) (start (t_af x)) seen * fadj (af_id (t_af x)) seen
+                         = start (t_af x) + net_after (af_id (t_af x)) [] seen) by (rewrite Hsa; ring).
+          rewrite <- Hsa'. ring. }
+        rewrite E in Hneg. apply mul_neg_pos in Hneg; [|apply fadj_pos; exact Hps].
+        remember (shares_after (af_id (t_af x)) (start (t_af x)) seen) as sa. clear - Hneg. qc_lra.
+      + destruct (Qcltb_spec (sc_eop s - sh * adj_of (t_af x) adj) 0) as [Hall|Hall].
+        { exfalso. apply Hok. qc_lra. }
+        apply Hlift. eapply IH; [apply adj_inv_keep; [exact Hadj | rewrite Ea; reflexivity] | exact Hps' | exact Hpw | exact Hids | | | | exact H].
+        * intros af. rewrite act_update, Hnet. unfold net_shares, buy_shares, sell_shares. rewrite Ea.
+          rewrite (N.eqb_sym (af_id (t_af x)) (af_id af)).
+          destruct (N.eqb_spec (af_id af) (af_id (t_af x))) as [e|n0].
+          -- rewrite (Hact (t_af x)), (Hadj (t_af x)), e, (start_id _ _ e). ring.
+          -- rewrite (Hact af). ring.
+        * cbn [sc_eop].
+          rewrite (sum_over_ext _ _ (fun id => if N.eqb id (af_id (t_af x))
+                     then act s dflt (t_af x) - sh * adj_of (t_af x) adj else act s dflt (mkaf id))).
+          2: { intros id. rewrite act_update. reflexivity. }
+          rewrite sum_over_update by assumption. rewrite Hsum.
+          rewrite (act_id s (mkaf (af_id (t_af x))) (t_af x)) by reflexivity. ring.
+        * intros af. rewrite act_update. destruct (N.eqb _ _); [|apply Hnn].
+          apply Qcnot_lt_le. exact Hok.
+    - (* RoC *)
+      apply Hlift. eapply IH; [apply adj_inv_keep; [exact Hadj | rewrite Ea; reflexivity] | exact Hps' | exact Hpw | exact Hids | | exact Hsum | exact Hnn | exact H].
+      intros af. rewrite Hnet, (Hact af). unfold net_shares, buy_shares, sell_shares. rewrite Ea.
+      destruct (N.eqb _ _); ring.
+    - (* SfLA *)
+      apply Hlift. eapply IH; [apply adj_inv_keep; [exact Hadj | rewrite Ea; reflexivity] | exact Hps' | exact Hpw | exact Hids | | exact Hsum | exact Hnn | exact H].
+      intros af. rewrite Hnet, (Hact af). unfold net_shares, buy_shares, sell_shares. rewrite Ea.
+      destruct (N.eqb _ _); ring.
+    - (* Split *)
+      unfold split_factor in H.
+      brej H as f E1. apply pos_div_exact in E1 as (-> & _ & _).
+      brej H as nsa E2. apply pos_div_exact in E2 as (-> & _ & _).
+      apply Hlift. eapply IH; [ | exact Hps' | exact Hpw | exact Hids | | exact Hsum | exact Hnn | exact H].
+      + apply adj_inv_step; [exact Hadj | rewrite Ea; reflexivity|]. unfold split_factor_of. rewrite Ea. reflexivity.
+      + intros af. rewrite Hnet. unfold act in *. cbn [sc_active]. rewrite (Hact af).
+        unfold net_shares, buy_shares, sell_shares. rewrite Ea. destruct (N.eqb _ _); ring.
+  Qed.
+End Ahead2.
+
+Definition keys_nodup (st : pstate) : Prop := NoDup (map fst (ps_map st)).
+
+Lemma abs_map_keys m : map fst (abs_map m) = map fst m.
+Proof. unfold abs_map. rewrite map_map. reflexivity. Qed.
+
+Lemma shares_of_abs st id : shares_of (abs_map (ps_map st)) id = last_sh st (mkaf id).
+Proof.
+  unfold shares_of, last_sh, latest_for. rewrite alookup_abs. cbn [af_id mkaf].
+  destruct (alookup id (ps_map st)); reflexivity.
+Qed.
+
+Lemma sfl_info_rej_witness regof bef t sold aft st r :
+  st_inv regof st -> keys_nodup st -> Forall split_pos aft ->
+  sfl_info exact bef t sold aft st = Rej r ->
+  r = RejScanAllLess \/ r = RejScanAfLess \/
+  (is_ahead r /\
+   exists w1 x w2 n p c rr cr sp, aft = w1 ++ x :: w2 /\ t_act x = Sell n p c rr cr sp /\
+     (t_sd x <= t_sd t + 30)%Z /\
+     shares_after (af_id (t_af x)) (shares_after_sale st t sold (t_af x)) w1 < n).
+Proof.
+  intros Hinv Hk Hp H. unfold sfl_info in H. cbn [a_sub exact bind] in H.
+  destruct (Qcltb_spec (s_all (latest_post_status st) - sold) 0) as [|Hall]; [inversion H; left; reflexivity|].
+  match type of H with (if Qcltb ?a 0 then _ else _) = _ => destruct (Qcltb_spec a 0) as [|Haf] end;
+    [inversion H; right; left; reflexivity|].
+  right; right.
+  match type of H with bind (fwd_scan exact ?l ?d aft [] ?s0) _ = _ =>
+    destruct (fwd_scan exact l d aft [] s0) as [s1| r1 |q] eqn:E1; cbn [bind] in H end.
+  - exfalso. destruct (negb _); [discriminate H|].
+    match type of H with bind ?m _ = _ => destruct m as [s2| r2 |q] eqn:E2; cbn [bind] in H end.
+    + destruct (Qcltb _ _); discriminate H.
+    + eapply bwd_scan_norej. exact E2.
+    + discriminate H.
+  - inversion H; subst r1. clear H. split; [apply fwd_scan_rej in E1; exact E1|].
+    match type of E1 with fwd_scan exact ?l ?d aft [] ?s0 = _ => set (dfl := d) in *; set (s0' := s0) in * end.
+    assert (Hd : forall af af', af_id af = af_id af' -> dfl af = dfl af').
+    { intros af af' e. unfold dfl, latest_for. rewrite e. reflexivity. }
+    assert (Hs : forall af af', af_id af = af_id af' -> shares_after_sale st t sold af = shares_after_sale st t sold af').
+    { intros af af' e. unfold shares_after_sale, latest_for. rewrite e. reflexivity. }
+    assert (Hact : forall af, act s0' dfl af = shares_after_sale st t sold af + net_after (af_id af) [] []).
+    { intros af. unfold act, shares_after_sale, s0', dfl. cbn [sc_active alookup net_after].
+      destruct (N.eqb (af_id af) (af_id (t_af t))) eqn:Eqs.
+      - apply N.eqb_eq in Eqs. unfold latest_for. rewrite Eqs. ring.
+      - ring. }
+    set (ids := nodup N.eq_dec (map fst (ps_map st) ++ af_id (t_af t) :: map (fun x => af_id (t_af x)) aft)).
+    assert (Hnd : NoDup ids) by apply NoDup_nodup.
+    assert (Hids : Forall (fun x => In (af_id (t_af x)) ids) aft).
+    { apply Forall_forall. intros x Hx. apply nodup_In. apply in_or_app. right. right.
+      apply in_map_iff. exists x. split; [reflexivity | exact Hx]. }
+    assert (Hdfl : forall af, dfl af = last_sh st af) by reflexivity.
+    assert (Hnn : forall af, 0 <= act s0' dfl af).
+    { intros af. unfold act, s0'. cbn [sc_active alookup].
+      destruct (N.eqb (af_id af) (af_id (t_af t))); [apply Qcnot_lt_le; exact Haf|].
+      rewrite Hdfl. apply (last_sh_le_all regof st af Hinv). }
+    assert (Hsum : sc_eop s0' = sum_over ids (fun id => act s0' dfl (mkaf id))).
+    { unfold s0' at 1. cbn [sc_eop].
+      rewrite (sum_over_ext _ _ (fun id => if N.eqb id (af_id (t_af t))
+                 then dfl (t_af t) - sold else shares_of (abs_map (ps_map st)) id)).
+      2: { intros id. unfold act, s0'. cbn [sc_active alookup af_id mkaf].
+           destruct (N.eqb id (af_id (t_af t))); [reflexivity|]. rewrite shares_of_abs. reflexivity. }
+      rewrite sum_over_update; [|exact Hnd|].
+      2: { apply nodup_In. apply in_or_app. right. left. reflexivity. }
+      rewrite <- total_as_sum; [|rewrite abs_map_keys; exact Hk | exact Hnd|].
+      2: { rewrite abs_map_keys. intros x Hx. apply nodup_In. apply in_or_app. left. exact Hx. }
+      destruct Hinv as (_ & Hsum & _ & Hl). unfold st_sum in Hsum. rewrite Hl, Hsum.
+      rewrite shares_of_abs. rewrite (Hdfl (t_af t)). unfold last_sh, latest_for. cbn [af_id mkaf]. ring. }
+    destruct (fwd_scan_rej_witness _ dfl (shares_after_sale st t sold) Hd Hs ids Hnd aft [] s0' [] r
+                adj_inv_nil (Forall_nil _) Hp Hids Hact Hsum Hnn E1)
+      as (w1 & x & w2 & n & p & c & rr & cr & sp & Ew & Ea & Hsd & Hlt).
+    exists w1, x, w2, n, p, c, rr, cr, sp. cbn [app] in Hlt. unfold Model.Sfl.window_days in Hsd. auto.
+  - discriminate H.
+Qed.
+
+(* ---- the walk: shares only depend on purchases, sales and splits ---- *)
+Lemma held_fst_id hs af af' : af_id af = af_id af' -> fst (held hs af) = fst (held hs af').
+Proof. intros e. unfold held. rewrite e. destruct (alookup _ _); reflexivity. Qed.
+
+Lemma shares_record hs a dn af :
+  fst (held (record hs a dn) af) = step_shares (af_id af) (fst (held hs af)) a.
+Proof.
+  unfold record, step_shares. unfold held at 1. rewrite alookup_aupdate.
+  rewrite (N.eqb_sym (af_id (t_af a)) (af_id af)).
+  destruct (N.eqb_spec (af_id af) (af_id (t_af a))) as [e|ne].
+  - pose proof (held_fst_id hs (t_af a) af (eq_sym e)) as Hf.
+    destruct (held hs (t_af a)) as [sh acb]. cbn [fst] in Hf. rewrite <- Hf.
+    unfold avg_cost_rule, split_factor_of. destruct (t_act a); cbn [fst]; reflexivity.
+  - fold (held hs af). reflexivity.
+Qed.
+
+Lemma shares_record_all adj : forall hs af,
+  Forall (fun a => is_sfla (t_act a) = true) adj ->
+  fst (held (record_all hs adj) af) = fst (held hs af).
+Proof.
+  induction adj as [|a adj IH]; intros hs af HF; [reflexivity|].
+  apply Forall_cons_iff in HF as [Ha HF]. unfold record_all. cbn [fold_left]. fold (record_all (record hs a 0) adj).
+  rewrite (IH _ _ HF), shares_record. unfold step_shares. destruct (t_act a); try discriminate Ha.
+  destruct (N.eqb _ _); reflexivity.
+Qed.
+
+Definition adj_row (t a : tx) : Prop :=
+  is_sfla (t_act a) = true /\ af_reg (t_af a) = false /\ t_sd a = t_sd t.
+
+Lemma judge_adj hs bef t aft dn adj : judge hs bef t aft = Goes dn adj -> Forall (adj_row t) adj.
+Proof.
+  unfold judge. intros H.
+  assert (Hloss : forall n g declared, judge_loss hs bef t n g declared aft = Goes dn adj -> Forall (adj_row t) adj).
+  { clear H. intros n g declared H. unfold judge_loss in H. cbv zeta in H.
+    destruct declared as [[sv force]|].
+    - destruct (_ && _); [discriminate|]. inversion H; constructor.
+    - destruct (_ && _); [|inversion H; constructor]. inversion H; subst.
+      destruct (Qcltb 0 _); [|constructor].
+      eapply Forall_impl; [|apply adjustments_shape]. intros a (H1 & H2 & H3 & _). repeat split; assumption. }
+  destruct (t_act t).
+  - inversion H; constructor.
+  - destruct (Qcltb _ _); [discriminate|]. destruct (snd _); [|inversion H; constructor].
+    destruct (Qcltb _ 0); [eapply Hloss; exact H|]. destruct sfl; [discriminate|]. inversion H; constructor.
+  - destruct (snd _); [|discriminate]. destruct (Qcltb _ _); [discriminate|]. inversion H; constructor.
+  - destruct (snd _); [|discriminate]. inversion H; constructor.
+  - destruct (_ && _); [discriminate|]. inversion H; constructor.
+Qed.
+
+Lemma walk_finds_oversale x n p c rr cr sp w2 :
+  t_act x = Sell n p c rr cr sp ->
+  forall w1 hs bef,
+    shares_after (af_id (t_af x)) (fst (held hs (t_af x))) w1 < n ->
+    exists cl, snd (walk hs bef (w1 ++ x :: w2)) = Some cl /\
+               (length (fst (walk hs bef (w1 ++ x :: w2))) <= length w1)%nat /\
+               (length (fst (walk hs bef (w1 ++ x :: w2))) = length w1 -> cl = OverSale).
+Proof.
+  intros Ea. induction w1 as [|y w1 IH]; intros hs bef Hlt.
+  - cbn [app walk]. unfold judge. rewrite Ea. unfold shares_after in Hlt. cbn [fold_left] in Hlt.
+    apply Qcltb_true in Hlt. rewrite Hlt. exists OverSale. cbn. auto.
+  - cbn [app walk]. destruct (judge hs bef y (w1 ++ x :: w2)) as [cl|dn adj] eqn:Ej.
+    + exists cl. cbn. split; [reflexivity|]. split; [lia | intros Hc; discriminate Hc].
+    + specialize (IH (record_all (record hs y dn) adj) (rev adj ++ y :: bef)).
+      destruct (walk (record_all (record hs y dn) adj) (rev adj ++ y :: bef) (w1 ++ x :: w2)) as [gs o] eqn:Ew.
+      cbn [fst snd length] in *.
+      destruct IH as (cl & Ho & Hlen & Hcl).
+      * rewrite shares_record_all, shares_record.
+        -- unfold shares_after in *. cbn [fold_left] in Hlt. exact Hlt.
+        -- eapply Forall_impl; [|eapply judge_adj; exact Ej]. intros a (Ha & _). exact Ha.
+      * exists cl. split; [exact Ho|]. split; [lia|]. intros Hc. apply Hcl. lia.
+Qed.
